@@ -28,30 +28,41 @@ from .. import core, tla
 T, F = 1001, 1000
 
 
-def render(x) -> str:
+VAR_STYLES = {'plain': '${0}', 'map': "map{{'k': ${0}}}?k", 'array': '[${0}]?1', 'forq': '(for $q in 1 return ${0})'}
+
+
+def render(x, style: str = 'plain', inside: bool = False) -> str:
+    """XPath text of a Scopes program.  `style` is a rendering choice for the variable reads INSIDE the bodies of escaping
+    closures (clos / forclos): plain, or through a map / array constructor or a for clause (value-preserving wrappers that
+    hide the read from a syntactic scan of the function body)."""
     k = x['k']
     if k == 'lit':
         return str(x['n'])
     if k == 'var':
-        return '$' + x['v']
+        return VAR_STYLES[style if inside else 'plain'].format(x['v'])
+    if k == 'clos':
+        return (f'(let $f := function() {{ {render(x["b"], style, True)} }} return '
+                f'(let ${x["v"]} := {render(x["s"], style, inside)} return $f()))')
+    if k == 'forclos':
+        return f'((for ${x["v"]} in {render(x["s"], style, inside)} return function() {{ {render(x["b"], style, True)} }}) ! .())'
     if k == 'add':
-        return f'({render(x["a"])} + {render(x["b"])})'
+        return f'({render(x["a"], style, inside)} + {render(x["b"], style, inside)})'
     if k == 'gt':
-        return f'({render(x["a"])} gt {render(x["b"])})'
+        return f'({render(x["a"], style, inside)} gt {render(x["b"], style, inside)})'
     if k == 'cat':
-        return f'({render(x["a"])}, {render(x["b"])})'
+        return f'({render(x["a"], style, inside)}, {render(x["b"], style, inside)})'
     if k == 'for':
-        return f'(for ${x["v"]} in {render(x["s"])} return {render(x["b"])})'
+        return f'(for ${x["v"]} in {render(x["s"], style, inside)} return {render(x["b"], style, inside)})'
     if k == 'for2':
-        return f'(for ${x["v"]} in {render(x["s"])}, ${x["w"]} in {render(x["t"])} return {render(x["b"])})'
+        return f'(for ${x["v"]} in {render(x["s"], style, inside)}, ${x["w"]} in {render(x["t"], style, inside)} return {render(x["b"], style, inside)})'
     if k == 'let':
-        return f'(let ${x["v"]} := {render(x["s"])} return {render(x["b"])})'
+        return f'(let ${x["v"]} := {render(x["s"], style, inside)} return {render(x["b"], style, inside)})'
     if k == 'some':
-        return f'(some ${x["v"]} in {render(x["s"])} satisfies {render(x["c"])})'
+        return f'(some ${x["v"]} in {render(x["s"], style, inside)} satisfies {render(x["c"], style, inside)})'
     if k == 'every':
-        return f'(every ${x["v"]} in {render(x["s"])} satisfies {render(x["c"])})'
+        return f'(every ${x["v"]} in {render(x["s"], style, inside)} satisfies {render(x["c"], style, inside)})'
     if k == 'call':
-        return f'(function(${x["v"]}) {{ {render(x["b"])} }})({render(x["a"])})'
+        return f'(function(${x["v"]}) {{ {render(x["b"], style, inside)} }})({render(x["a"], style, inside)})'
     raise ValueError(k)
 
 
@@ -109,11 +120,13 @@ def scopes_worker(job):
     import elementpath
     fails, n = [], 0
     for (e, val, via) in job:
-        text = render(e)
         ks = kinds(e)
-        versions = ['3.0', '3.1'] if ks & {'let', 'call'} else ['2.0', '3.0', '3.1']
+        versions = ['3.0', '3.1'] if ks & {'let', 'call', 'clos', 'forclos'} else ['2.0', '3.0', '3.1']
         expected = list(val)
-        for v in versions:
+        texts = [(v, render(e)) for v in versions]
+        if ks & {'clos', 'forclos'}:
+            texts += [('3.1', render(e, 'map')), ('3.1', render(e, 'array')), ('3.0', render(e, 'forq')), ('3.1', render(e, 'forq'))]
+        for v, text in texts:
             variables = {'x': 10, 'y': 20}
             obs = outcome(lambda: project_atoms(elementpath.select(None, text, item=1, variables=variables,
                                                                    parser=parsers()[v])))
@@ -143,7 +156,7 @@ def scopes_worker(job):
 # SelectorHistory: contexts and expression pool
 
 DOCS = {
-    'd1': '<r><a v="1">t<b/></a><a v="2"/><b>u</b></r>',
+    'd1': '<r><a v="1">t<b/>w</a>x<a v="2"/>y<b>u</b>z</r>',
     'd2': '<r xmlns:p="urn:p"><b/><a v="9"><a v="8"/></a><p:a v="7"/></r>',
     'd4': '<p:root xmlns:p="urn:p"><a v="5"><b/>w</a><p:a v="6"/></p:root>',
 }
@@ -215,6 +228,19 @@ TEMPLATES = [
     ('3.1', 'array:for-each([1, 2], function($n) { $n + $x })?*'),
     ('3.1', 'let $m := map{$x: "one"} return map:contains($m, 10)'),
     ('3.1', 'sort((3, $x, 2))'), ('3.1', 'map:merge((map{"a": $x}, map{"a": $y}))?a'),
+    # serialisation of a node that is followed by text, with every parameter that selects another code path
+    ('3.1', 'serialize((//a)[1])'), ('3.1', 'serialize((//a)[1], map{"standalone": true()})'),
+    ('3.1', 'serialize((//a)[1], map{"standalone": false(), "omit-xml-declaration": false()})'),
+    ('3.1', 'serialize((//a)[1], map{"indent": true()})'), ('3.1', 'serialize((//a)[1], map{"method": "html"})'),
+    ('3.1', 'serialize((//a)[1], map{"method": "text"})'), ('3.1', 'serialize(//a, map{"item-separator": "|", "omit-xml-declaration": true()})'),
+    ('3.1', 'serialize(map{"k": $x, "n": string((//a)[1]/@v)}, map{"method": "json"})'),
+    ('3.1', 'serialize(((//a)[1], $x), map{"method": "adaptive"})'),
+    ('3.0', 'parse-xml(serialize((//a)[1]))/*/@v'), ('3.0', 'serialize(parse-xml-fragment("<q/>t<q>" || $x || "</q>"))'),
+    ('3.1', 'xml-to-json(json-to-xml(serialize(map{"k": $x}, map{"method": "json"})))'),
+    ('3.0', 'string-join(//a ! string(.), "|")'), ('3.0', 'string-join(//a/following-sibling::node() ! string(.), "|")'),
+    ('2.0', 'string(/)'), ('2.0', 'data(//a)'), ('2.0', 'for $n in //* return (name($n), string-length(string($n)))'),
+    ('3.0', 'innermost(//*) ! name()'), ('3.0', 'path((//b)[last()])'), ('2.0', 'root((//b)[1])/*/@v | //a/@v'),
+    ('2.0', 'deep-equal((//a)[1], (//a)[2])'), ('2.0', 'count(//node()) + count(//@*)'),
 ]
 
 
@@ -354,7 +380,8 @@ def signature_templates() -> tuple[list, list]:
     return sorted(set(hist)), sorted(set(batch))
 
 
-SIG_HISTORIES = [('c1', 'c2', 'c1'), ('c2', 'c1', 'c3'), ('c3', 'c4', 'c3'), ('c4', 'c3', 'c1'), ('c1', 'c1', 'c2')]
+SIG_HISTORIES = [('c1', 'c2', 'c1'), ('c2', 'c1', 'c3'), ('c3', 'c4', 'c3'), ('c4', 'c3', 'c1'), ('c1', 'c1', 'c2'),
+                 ('c1', 'edit:c1', 'c1'), ('c3', 'edit:c3', 'c3')]
 
 
 def sig_worker(job):
@@ -384,32 +411,41 @@ def sig_worker(job):
             except Exception:
                 skipped += 1
                 continue
-            fresh = {}
+            fresh, stable = {}, True
             for c in ('c1', 'c2', 'c3', 'c4'):
-                two = []
-                for _ in range(2):
-                    ctx = make_context(c)
-                    two.append(outcome(lambda: proj_result(elementpath.select(
-                        ctx['root'], expr, parser=P, variables=ctx['variables'], timezone=ctx['timezone'], namespaces=ctx['namespaces']))))
-                    n += 1
-                fresh[c] = two[0] if two[0] == two[1] else None      # None: not a function of the context (skipped)
-            if any(v is None for v in fresh.values()):
+                two = [fresh_outcome(expr, P, c, 0), fresh_outcome(expr, P, c, 0)]
+                n += 2
+                fresh[(c, 0, False)] = two[0]
+                stable = stable and two[0] == two[1]      # else: not a function of the context (current-dateTime ...): skipped
+            if not stable:
                 skipped += 1
                 continue
             for mode in ('selector', 'token'):
                 for hist in SIG_HISTORIES:
                     obj = elementpath.Selector(expr, namespaces={'p': 'urn:p'}, parser=P) if mode == 'selector' else \
                         P(namespaces={'p': 'urn:p'}).parse(expr)
-                    ctxs = {c: make_context(c) for c in set(hist)}
+                    ctxs = {c: make_context(c) for c in {ctx_of(h) for h in hist}}
                     snaps = {c: snapshot(ctxs[c]) for c in ctxs}
+                    edits = {c: 0 for c in ctxs}
                     for i, c in enumerate(hist):
+                        if c.startswith('edit:'):
+                            c = ctx_of(c)
+                            edits[c] += 1
+                            edit_doc(ctxs[c], edits[c])
+                            snaps[c] = snapshot(ctxs[c])
+                            continue
+                        key = (c, edits[c], mode == 'selector')
+                        if key not in fresh:
+                            fresh[key] = fresh_outcome(expr, P, c, edits[c], mode == 'selector')
+                            n += 1
+                        want = fresh[key]
                         obs = outcome(lambda: proj_result(eval_in(obj, mode, ctxs[c])))
                         n += 1
                         feat = None
-                        if obs != fresh[c]:
+                        if obs != want:
                             feat = dict(part='sighistory', outcome='differs_from_fresh', mode=mode, step=i + 1, function=expr.split('(', 1)[0],
                                         parser=version)
-                            exp = fresh[c]
+                            exp = want
                         elif any(snapshot(ctxs[c2]) != snaps[c2] for c2 in ctxs):
                             c2 = next(c2 for c2 in ctxs if snapshot(ctxs[c2]) != snaps[c2])
                             feat = dict(part='sigpurity', outcome='caller_input_modified', mode=mode, step=i + 1, function=expr.split('(', 1)[0],
@@ -446,9 +482,20 @@ def snapshot(ctx):
             tuple(sorted(ctx['namespaces'].items())))
 
 
+def call_kw(ctx, minimal: bool) -> dict:
+    """Keyword arguments of one evaluation.  minimal: only what the caller must pass (the Selector already has the
+    namespaces): the API takes different paths depending on which tree-building options are given."""
+    if minimal:
+        kw = dict(variables=ctx['variables'])
+        if ctx['timezone'] is not None:
+            kw['timezone'] = ctx['timezone']
+        return kw
+    return dict(variables=ctx['variables'], timezone=ctx['timezone'], namespaces=ctx['namespaces'])
+
+
 def eval_in(sel_or_tok, mode, ctx):
     from elementpath import XPathContext
-    kw = dict(variables=ctx['variables'], timezone=ctx['timezone'], namespaces=ctx['namespaces'])
+    kw = call_kw(ctx, mode == 'selector')
     if mode == 'selector':
         return sel_or_tok.select(ctx['root'], **kw)
     if mode == 'selector_iter':
@@ -456,19 +503,40 @@ def eval_in(sel_or_tok, mode, ctx):
     return sel_or_tok.get_results(XPathContext(ctx['root'], **kw))
 
 
-def history_worker(job):
+def edit_doc(ctx: dict, k: int) -> None:
+    """The k-th edit the CALLER makes to the document of a context (spec action Edit): a new element, a changed attribute,
+    a changed text chunk - so that every template that reads the document sees a difference."""
+    root = ctx['root']
+    el = root.getroot() if hasattr(root, 'getroot') else root
+    first = el[0]
+    el.append(ET.Element('a', {'v': str(70 + k)}))
+    ET.SubElement(first, 'b').text = f'n{k}'
+    first.set('v', f'{k}{k}')
+    first.text = f'T{k}'
+
+
+def ctx_of(h: str) -> str:
+    return h[5:] if h.startswith('edit:') else h
+
+
+def fresh_outcome(expr: str, P, c: str, n_edits: int, minimal: bool = False):
+    """The property's oracle: a freshly parsed expression on a fresh context (same keyword arguments as the reused one)."""
     import elementpath
+    ctx = make_context(c)
+    for k in range(1, n_edits + 1):
+        edit_doc(ctx, k)
+    if minimal:
+        return outcome(lambda: proj_result(elementpath.Selector(expr, namespaces={'p': 'urn:p'}, parser=P).select(
+            ctx['root'], **call_kw(ctx, True))))
+    return outcome(lambda: proj_result(elementpath.select(ctx['root'], expr, parser=P, **call_kw(ctx, False))))
+
+
+def history_worker(job):
     from elementpath import Selector
     fails, n = [], 0
     for (expr, version, histories) in job:
         P = parsers()[version]
         fresh = {}
-        for c in sorted({c for h in histories for c in h}):
-            ctx = make_context(c)
-            fresh[c] = outcome(lambda: proj_result(elementpath.select(
-                ctx['root'], expr, parser=P, variables=ctx['variables'], timezone=ctx['timezone'],
-                namespaces=ctx['namespaces'])))
-            n += 1
         for mode in ('selector', 'selector_iter', 'token'):
             for hist in histories:
                 # one parsed expression, caller inputs created once and reused across the history
@@ -477,16 +545,27 @@ def history_worker(job):
                         P(namespaces={'p': 'urn:p'}).parse(expr)
                 except Exception as e:  # parse failure of a template is a machinery problem
                     raise tla.MachineryError(f'template does not parse: {expr}: {e}')
-                ctxs = {c: make_context(c) for c in set(hist)}
+                ctxs = {c: make_context(c) for c in {ctx_of(h) for h in hist}}
                 snaps = {c: snapshot(ctxs[c]) for c in ctxs}
+                edits = {c: 0 for c in ctxs}
                 for i, c in enumerate(hist):
+                    if c.startswith('edit:'):       # the caller edits its own document between two evaluations
+                        c = ctx_of(c)
+                        edits[c] += 1
+                        edit_doc(ctxs[c], edits[c])
+                        snaps[c] = snapshot(ctxs[c])
+                        continue
+                    key = (c, edits[c], mode == 'selector')
+                    if key not in fresh:
+                        fresh[key] = fresh_outcome(expr, P, c, edits[c], mode == 'selector')
+                        n += 1
                     obs = outcome(lambda: proj_result(eval_in(obj, mode, ctxs[c])))
                     n += 1
                     feat = None
-                    if obs != fresh[c]:
+                    if obs != fresh[key]:
                         feat = dict(part='history', outcome='differs_from_fresh', mode=('token' if mode == 'token' else 'selector'),
-                                    step=i + 1, repeated_context=c in hist[:i], template=expr, parser=version)
-                        exp = fresh[c]
+                                    step=i + 1, repeated_context=c in hist[:i], after_edit=edits[c] > 0, template=expr, parser=version)
+                        exp = fresh[key]
                     else:
                         for c2 in ctxs:
                             if snapshot(ctxs[c2]) != snaps[c2]:
@@ -557,16 +636,23 @@ def run(chk: core.Check) -> None:
     wd = os.path.join(chk.scratch, 'hist')
     dot = os.path.join(wd, 'g.dot')
     maxlen = 3 if chk.tier == 'quick' else 4
-    cfg = tla.cfg_text(dict(Contexts={'c1', 'c2', 'c3', 'c4'}, MaxLen=maxlen), invariants=['OutputIsFresh', 'Pure'],
+    cfg = tla.cfg_text(dict(Contexts={'c1', 'c2', 'c3', 'c4'}, MaxLen=maxlen, MaxEdits=1), invariants=['OutputIsFresh', 'Pure'],
                        properties=['InputsNeverChange'])
     r2 = tla.require_ok(tla.run_tlc('SelectorHistory', cfg, wd, dump_dot=dot, workers=2), 'SelectorHistory', min_distinct=10)
     chk.model(f'SelectorHistory/len{maxlen}', r2)
     g2 = tla.load_dot(dot)
-    all_hists = sorted({tuple(st['hist']) for st in g2.states.values() if len(st['hist']) == maxlen})
+    all_hists = sorted({tuple(c if kind == 'eval' else 'edit:' + c for kind, c in st['hist'])
+                        for st in g2.states.values() if len(st['hist']) == maxlen})
     if any(h not in all_hists for h in SIG_HISTORIES if len(h) == maxlen):
         raise tla.MachineryError('SIG_HISTORIES are not behaviours of SelectorHistory')
-    # quick: every history over c1..c3 plus the ones that alternate between the two Element roots c3 / c4
-    hists = [h for h in all_hists if 'c4' not in h or (chk.tier != 'quick') or set(h) <= {'c3', 'c4'}]
+    # quick: every edit-free history over c1..c3, the ones that alternate between the two Element roots c3 / c4, and the
+    # histories in which the caller edits the document between two evaluations of the same context
+    def in_quick(h):
+        cs = {ctx_of(x) for x in h}
+        if any(x.startswith('edit:') for x in h):
+            return len(cs) == 1 or (h[0] == h[-1] and not h[0].startswith('edit:') and len(cs) == 2 and cs <= {'c1', 'c3'})
+        return 'c4' not in cs or cs <= {'c3', 'c4'}
+    hists = [h for h in all_hists if chk.tier != 'quick' or in_quick(h)]
     chk.add('transitions', len(g2.edges))
     rnd = random.Random(chk.seed)
     binder_progs = [p for p in progs if p[2] != 'seed']
@@ -580,7 +666,7 @@ def run(chk: core.Check) -> None:
             parsers()['3.1']().parse(render(e))
         except ElementPathError:
             continue
-        pool.append(('3.0' if kinds(e) & {'let', 'call'} else '2.0', render(e)))
+        pool.append(('3.0' if kinds(e) & {'let', 'call', 'clos', 'forclos'} else '2.0', render(e)))
         want -= 1
     jobs = []
     for minv, expr in pool:
